@@ -1,7 +1,8 @@
 (* C05/Model.v — executable model of the exporter retry path.  No proofs here.
 
    Code modelled (opentelemetry-collector, pinned tree):
-     exporter/exporterhelper/internal/retry_sender.go    retrySender.Send, throttleRetry
+     exporter/exporterhelper/internal/retry_sender.go    retrySender.Send (incl. the post-timer stopCh
+                                                         re-check of fix 9628cae8b), throttleRetry
      exporter/exporterhelper/internal/timeout_sender.go  timeoutSender.Send
      exporter/exporterhelper/internal/base_exporter.go   NewBaseExporter: which senders are installed
      exporter/exporterhelper/{logs,traces,metrics}.go    xRequest.OnError
@@ -191,7 +192,7 @@ Record step := {
   s_cur : Z;                   (* currentInterval used by NextBackOff (after the ==0 reset) *)
   s_next : Z;                  (* value returned by NextBackOff *)
   s_delay : Z;                 (* backoffDelay after the throttle override *)
-  s_wake : wake;               (* branch taken by the select (WTimer when not reached) *)
+  s_wake : wake;               (* branch the select takes *)
   s_npayload : list Z;         (* request after OnError *)
   s_ncur : Z;                  (* currentInterval after incrementCurrentInterval *)
   s_dec : decision
@@ -199,35 +200,48 @@ Record step := {
 
 Definition draw_at (sc : scenario) (n : nat) : Z * Z := nth n (sc_draws sc) (0, 1).
 
+(* the non-blocking `select { case <-rs.stopCh: ...; default: }` executed after the timer branch
+   fired at instant t: the stop channel is closed iff Shutdown happened no later than t *)
+Definition stop_closed_at (sc : scenario) (t : Z) : bool :=
+  match sc_stop sc with Some s => s <=? t | None => false end.
+
+(* the decision part of the loop body, in source order *)
+Definition decide (sc : scenario) (r : result) (e next delay : Z) (w : wake) : decision :=
+  let c := sc_cfg sc in
+  match r with
+  | ROk => DStop VOk                                          (* if err == nil { return nil } *)
+  | RErr ch =>
+    if negb (c_enabled c) then DStop VRaw                     (* no retrySender installed *)
+    else if is_permanent ch then DStop VPermanent             (* consumererror.IsPermanent(err) *)
+    else if next =? backoff_stop then DStop VNoMoreRetries    (* backoffDelay == backoff.Stop *)
+    else if (0 <? c_maxel c) && (c_maxel c <? e + delay)      (* maxElapsedTime.Before(nextRetryTime) *)
+    then DStop VNoMoreRetries
+    else if match sc_deadline sc with Some dl => dl <? e + delay | None => false end
+    then DStop VDeadline                                      (* deadline.Before(nextRetryTime) *)
+    else match w with
+         | WCtx => DStop VCancelled
+         | WStop => DStop VShutdown
+         | WTimer =>                                          (* timer fired: look at stopCh once more *)
+           if stop_closed_at sc (e + delay) then DStop VShutdown else DRetry
+         end
+  end.
+
+(* All quantities of one iteration.  The back-off fields are computed for every step (for a step
+   that ends with a verdict before NextBackOff is reached they are the values that WOULD be used;
+   nothing observable depends on them). *)
 Definition do_step (sc : scenario) (n : nat) (now : Z) (pl : list Z) (cur : Z) (a : attempt) : step :=
   let c := sc_cfg sc in
-  let '(e, r) := effective sc now a in
-  let mk := fun cur1 next delay w pl' cur' d =>
-    {| s_idx := n; s_start := now; s_payload := pl; s_deadline := att_deadline sc now; s_end := e; s_res := r;
-       s_cur := cur1; s_next := next; s_delay := delay; s_wake := w; s_npayload := pl'; s_ncur := cur'; s_dec := d |} in
-  match r with
-  | ROk => mk cur 0 0 WTimer pl cur (DStop VOk)
-  | RErr ch =>
-    if negb (c_enabled c) then mk cur 0 0 WTimer pl cur (DStop VRaw)
-    else if is_permanent ch then mk cur 0 0 WTimer pl cur (DStop VPermanent)
-    else
-      let pl' := on_error (sc_sig sc) pl ch in
-      let cur1 := reset_cur c cur in
-      let next := rand_interval c cur1 (draw_at sc n) in
-      let cur' := increment c cur1 in
-      if next =? backoff_stop then mk cur1 next next WTimer pl' cur' (DStop VNoMoreRetries)
-      else
-        let delay := match throttle_of ch with Some d => Z.max next d | None => next end in
-        let nrt := e + delay in                               (* nextRetryTime *)
-        if (0 <? c_maxel c) && (c_maxel c <? nrt)             (* maxElapsedTime.Before(nextRetryTime) *)
-        then mk cur1 next delay WTimer pl' cur' (DStop VNoMoreRetries)
-        else if match sc_deadline sc with Some dl => dl <? nrt | None => false end
-        then mk cur1 next delay WTimer pl' cur' (DStop VDeadline)
-        else
-          let w := select_wait (sc_tie sc n) e delay (ctx_done sc) (sc_stop sc) in
-          mk cur1 next delay w pl' cur'
-             (match w with WCtx => DStop VCancelled | WStop => DStop VShutdown | WTimer => DRetry end)
-  end.
+  let e := fst (effective sc now a) in
+  let r := snd (effective sc now a) in
+  let ch := match r with RErr ch => ch | ROk => [] end in
+  let cur1 := reset_cur c cur in
+  let next := rand_interval c cur1 (draw_at sc n) in
+  let delay := match throttle_of ch with Some d => Z.max next d | None => next end in   (* max(backoffDelay, throttleErr.delay) *)
+  let w := select_wait (sc_tie sc n) e delay (ctx_done sc) (sc_stop sc) in
+  {| s_idx := n; s_start := now; s_payload := pl; s_deadline := att_deadline sc now; s_end := e; s_res := r;
+     s_cur := cur1; s_next := next; s_delay := delay; s_wake := w;
+     s_npayload := on_error (sc_sig sc) pl ch; s_ncur := increment c cur1;
+     s_dec := decide sc r e next delay w |}.
 
 (* ---- the loop ------------------------------------------------------------------------------------ *)
 Fixpoint loop (sc : scenario) (script : list attempt) (n : nat) (now : Z) (pl : list Z) (cur : Z)
